@@ -213,11 +213,14 @@ class G(S.Hist):
             self.ops.append("IN " + b"".join(raws).hex())
 
 
-APP = ["D", "D", "D", "F", "8", "j"]
-ANY = ["D", "D", "D", "F", "8", "j", "0", "0", "1", "3", "2"]
+# application types incl. the two-character ones of schema utest2c whose first character is that of an
+# administrative type (A0 AD 0X 1Z 2B 3C 4D 5E) or a letter (DD ZZ): Session::process must hand them to the application
+TWOCHAR = list(S.TWOCHAR_TYPES)
+APP = ["D", "D", "D", "F", "8", "j"] + TWOCHAR
+ANY = ["D", "D", "D", "F", "8", "j", "0", "0", "1", "3", "2"] + TWOCHAR
 
 
-def probe(g, kind=None):
+def probe(g, kind=None, ttype=None):
     """One inbound probe aimed at g.exp; updates the rough simulation.  Returns the label."""
     rng = g.rng
     E = g.exp
@@ -226,7 +229,7 @@ def probe(g, kind=None):
              "missh", "no34", "v34", "v34", "d34", "d34", "d34", "v34after", "seqreset", "reject", "logout", "logon", "two",
              "dup", "dup", "unkmt", "shuffle", "shuffle"]
     k = kind or rng.choice(kinds)
-    t = rng.choice(ANY if rng.random() < 0.5 else APP)
+    t = ttype or rng.choice(ANY if rng.random() < 0.5 else APP)
     now = g.now
 
     def processed(n=1):
@@ -295,10 +298,10 @@ def probe(g, kind=None):
         g.feed(g.msg(t, rng.choice([E, E, E + 1, max(1, E - 1)]), bad_chk=True))
         g.exp += 1
     elif k == "missb":
-        tt = rng.choice(["D", "F", "8", "j", "1", "2"])
+        tt = ttype if ttype in TWOCHAR else rng.choice(["D", "F", "8", "j", "1", "2"] + TWOCHAR[:3])
         b = g.body(tt)
         mand = {"D": [11, 21, 55, 54, 60, 40], "F": [41, 11, 55, 54, 60], "8": [37, 17, 20, 150, 39, 55, 54, 151, 14, 6],
-                "j": [372, 380], "1": [112], "2": [7, 16]}[tt]
+                "j": [372, 380], "1": [112], "2": [7, 16]}.get(tt, [11])
         drop = rng.choice(mand)
         g.feed(g.msg(tt, rng.choice([E, E, E + 2]), body=[kv for kv in b if kv[0] != drop]))
         g.exp += 1
@@ -544,6 +547,33 @@ def gen_cases(rng, tier):
                     if rng.random() < 0.5:
                         probe(g, "ok")
                     cs.append(Case(g.line(), "sys-%s" % kind))
+    # 1a. every two-character application type x state (before logon, continuous, resend pending, test request
+    #     pending) x relation to the expected number (at, above, below without / with PossDup, equal with PossDup,
+    #     corrupt), followed by an in-sequence message of the same type
+    for tt in TWOCHAR:
+        for pre in (["nologon"], [], ["high"], ["tick"]):
+            for kind in ("ok", "high", "low", "lowpd", "eqpd", "chk", "missb", "comp"):
+                for _ in range(2 if thorough else 1):
+                    role = rng.choice("IA")
+                    g = G(rng, role, rng.choice(["file", "mem", "none"]), hb=rng.choice([5, 30]), asa=0,
+                          ec=0 if rng.random() < 0.2 else 1, rs=rng.choice([None, None, 4]))
+                    if pre == ["nologon"]:
+                        if role == "A" and g.persist == "mem":
+                            g.persist = "none"
+                            g.ops[0] = g.ops[0].replace(" mem", " none", 1)
+                    else:
+                        E = g.exp
+                        g.feed(g.msg("A", E))
+                        g.st, g.exp = "cont", E + 1
+                        for p in pre:
+                            if p == "tick":
+                                g.tick(int((g.hb * 1.2 + 2) * 10**9))
+                                g.st = "test"
+                            else:
+                                probe(g, p)
+                    probe(g, kind, ttype=tt)
+                    probe(g, "ok", ttype=tt)
+                    cs.append(Case(g.line(), "sys-twochar"))
     # 1b. acceptor Logons with ResetSeqNumFlag absent / Y / N against carried-over expected numbers (receive number
     #     argument of start; control record on the files across a restart), then messages at 2 and at expected
     for flag in (None, "Y", "N"):
@@ -693,9 +723,11 @@ def _meta():
     """Mandatory header / body tags per message type, from the harness' metadata dump."""
     global _META
     if _META is None:
-        hdr, body, lens = [], {}, set()
+        hdr, body, lens, admin = [], {}, set(), {}
         for l in open(S.build_sess()["driver_args"][0], errors="replace"):
             w = l.split()
+            if len(w) == 3 and w[0] == "A":
+                admin[w[1].encode()] = w[2] == "1"
             if len(w) >= 2 and w[0] == "P":
                 lens.update(int(x.split(":")[0]) for x in w[2:] if x.split(":")[2] == "2")     # type Length
             if len(w) >= 2 and w[0] == "P" and w[1] != "trailer":
@@ -704,14 +736,14 @@ def _meta():
                     hdr = mand
                 else:
                     body[w[1].encode()] = mand
-        _META = (hdr, body, lens)
+        _META = (hdr, body, lens, admin)
     return _META
 
 
 def _decodable(raw, toks):
     if len(toks) < 3 or toks[0][0] != b"8" or toks[1][0] != b"9" or toks[2][0] != b"35":
         return False
-    hdr, body, _ = _meta()
+    hdr, body = _meta()[0], _meta()[1]
     if toks[2][1] not in body:
         return False
     tags = set(k for k, _ in toks)
@@ -824,10 +856,17 @@ def explain(line, trace, cats=None):
                         elif F > E:
                             rr = any(_get(x, 35) == b"2" and _get(x, 7) == str(E).encode() for x in outs)
                             fail = None if (not dl and rr) else "high"
-                        elif F < E:
-                            if not pd:
-                                fail = None if stop_ok else "stop"
-                            elif late:
+                        elif F < E and not pd:
+                            fail = None if stop_ok else "stop"
+                        elif F < E and late:
+                            fail = "deliver" if dl else None
+                        else:
+                            # (deliv) in sequence: an application message is delivered exactly once as its own type
+                            dts = [e.split()[1].encode() for e in seg if e.startswith("DELIVER ")]
+                            app = (not at_logon) and _meta()[3].get(ty) is False
+                            if app:
+                                fail = None if dts == [ty] else "deliv"
+                            else:
                                 fail = "deliver" if dl else None
                     elif dl:
                         fail = "deliver"
